@@ -41,6 +41,7 @@ struct LargeMallocA : Adapter {
   std::mutex m;
   LargeMallocA() {
     comp         = "largeMalloc";
+    pageSized    = true;
     threadSafe   = true; // Local / Floating only (the others run the thread pool and are main-thread operations)
     liveCap      = 14;
     liveBytesCap = 56u << 20;
